@@ -303,6 +303,61 @@ fn dnnf_conditions(cls: &[Vec<(u64, bool)>], lits: &[(u64, bool)], k: usize, fai
     }
 }
 
+/// the hash-identified top-down builder stores nodes unnormalised (complemented high edges occur),
+/// a diagram shape the other builders never produce: counts with two weight sets on the root, on
+/// every sub-node and on every conditioning result, scratch walked after each, values against the
+/// brute-force sum (normalised dyadic weights: exact).  Oracle only.
+fn semantic_dnnf_queries(cls: &[Vec<(u64, bool)>], k: usize, fails: &mut Vec<String>) {
+    use rsdd::builder::decision_nnf::{DecisionNNFBuilder, SemanticDecisionNNFBuilder};
+    use rsdd::builder::TopDownBuilder;
+    use rsdd::repr::{Cnf, Literal, VarOrder};
+    let clauses: Vec<Vec<Literal>> = cls.iter().map(|c| c.iter().map(|(v, p)| Literal::new(VarLabel::new(*v), *p)).collect()).collect();
+    let cnf = Cnf::new(&clauses);
+    let total = cnf.num_vars();
+    if total == 0 || total > 8 {
+        return;
+    }
+    rsdd::verif::TABLE_CAPACITY.with(|c| c.set(Some(64))); // small initial table: many builders per case
+    let db = SemanticDecisionNNFBuilder::<{ primes::U64_LARGEST }>::new(VarOrder::linear_order(total));
+    rsdd::verif::TABLE_CAPACITY.with(|c| c.set(None));
+    let d = db.compile_cnf_topdown(&cnf);
+    let wsets: [Vec<f64>; 2] = [(0..total).map(|v| [0.25, 0.5, 0.75][v % 3]).collect(), (0..total).map(|v| [0.5, 0.125, 0.25, 0.875][(v + 1) % 4]).collect()];
+    let params: Vec<WmcParams<RealSemiring>> = wsets.iter().map(|hs| WmcParams::new(HashMap::from_iter((0..total).map(|v| (VarLabel::new(v as u64), (RealSemiring(1.0 - hs[v]), RealSemiring(hs[v]))))))).collect();
+    let brute = |t: &Vec<bool>, hs: &Vec<f64>| -> f64 { (0..(1usize << total)).filter(|a| t[*a]).map(|a| (0..total).map(|v| if (a >> v) & 1 == 1 { hs[v] } else { 1.0 - hs[v] }).product::<f64>()).sum() };
+    let mut nodes: Vec<BddPtr> = vec![];
+    fn collect<'a>(p: BddPtr<'a>, out: &mut Vec<BddPtr<'a>>) {
+        if let BddPtr::Reg(n) | BddPtr::Compl(n) = p {
+            if !out.contains(&p) {
+                out.push(p);
+                collect(n.low, out);
+                collect(n.high, out);
+            }
+        }
+    }
+    collect(d, &mut nodes);
+    let mut targets: Vec<BddPtr> = nodes.clone();
+    for v in 0..total {
+        for val in [false, true] {
+            targets.push(db.condition(d, VarLabel::new(v as u64), val));
+        }
+    }
+    for (ti, t) in targets.iter().enumerate() {
+        let tb = table_of(*t, total);
+        for (wi, pr) in params.iter().enumerate() {
+            let got = t.unsmoothed_wmc(pr).0;
+            let want = brute(&tb, &wsets[wi]);
+            if got != want {
+                fails.push(format!("query {k}: semantic decision-DNNF target {ti} (of {} nodes + conditionings), weight set {wi}: count {got}, the sum over its models is {want}", nodes.len()));
+                return;
+            }
+            if uncleared(d) || uncleared(*t) {
+                fails.push(format!("query {k}: semantic decision-DNNF target {ti}: some reachable node still has scratch data after a count"));
+                return;
+            }
+        }
+    }
+}
+
 fn uncleared(p: BddPtr) -> bool {
     match p {
         BddPtr::Reg(n) | BddPtr::Compl(n) => !p.is_scratch_cleared() || uncleared(n.low) || uncleared(n.high),
@@ -362,6 +417,14 @@ pub fn run(case: &str, st: &mut Stats) -> Outcome {
         }
         if let Q::D(cls, lits) = q {
             dnnf_conditions(cls, lits, k, &mut fails);
+            semantic_dnnf_queries(cls, k, &mut fails);
+            // ... and on further CNFs derived from this one (each clause set rotated / polarities
+            // flipped by a counter): the shape needed is rare
+            for j in 1..12u64 {
+                let nvv = cls.iter().flatten().map(|l| l.0).max().unwrap_or(0) + 1;
+                let alt: Vec<Vec<(u64, bool)>> = cls.iter().enumerate().map(|(ci, c)| c.iter().enumerate().map(|(li, (v, p))| ((v + j * (ci as u64 + 1) + (li as u64) * (j / 3)) % nvv, *p ^ (((j >> (li % 3)) & 1) == 1))).collect()).collect();
+                semantic_dnnf_queries(&alt, k, &mut fails);
+            }
         }
         st.bump(match q { Q::D(..) => "q_dnnf_conditions", Q::W(..) => "q_wmc_real", Q::F(..) => "q_wmc_ff", Q::E(..) => "q_evaluate", Q::N(..) => "q_count_nodes", Q::H(..) => "q_semantic_hash", Q::M(..) => "q_marginal_map", Q::C(..) => "q_condition", Q::S(..) => "q_smooth", Q::R(..) => "q_repeat" });
         // hash / MAP answers are compared with the fresh copy only (the model does not compute them)
